@@ -931,3 +931,26 @@ def m_chunks(eng, callee, args):
 @model(r"^<(SmallRng|rand::prelude::SmallRng|rand::rngs::SmallRng) as Clone>::clone$", "SmallRng::clone copies the generator state")
 def m_rng_clone(eng, callee, args):
     return clone_val(deref(args[0]))
+
+
+@model(r"^<(T|F|f32|f64) as (num_traits::)?Float>::powi$|^std::(f32|f64)::<impl (f32|f64)>::powi$|^(f32|f64)::powi$", "powi with a concrete exponent = repeated product")
+def m_powi(eng, callee, args):
+    x = Num.of(deref(args[0]))
+    n = deref(args[1])
+    if not isinstance(n, int):
+        raise Unmodelled("powi with symbolic exponent")
+    r = Num(1)
+    for _ in range(abs(n)):
+        r = r * x
+    return r if n >= 0 else Num(1) / r
+
+
+@model(r"^<(T|F|f32|f64) as (num_traits::)?Float>::recip$|^std::(f32|f64)::<impl (f32|f64)>::recip$", "recip = 1/x")
+def m_recip(eng, callee, args):
+    return Num(1) / Num.of(deref(args[0]))
+
+
+@model(r"^<(T|F|f32|f64) as (num_traits::)?Float>::mul_add$|^std::(f32|f64)::<impl (f32|f64)>::mul_add$", "mul_add = a*b + c (R-mode)")
+def m_mul_add(eng, callee, args):
+    a, b, c = [Num.of(deref(x)) for x in args]
+    return a * b + c
